@@ -1,7 +1,7 @@
 (* C20 — EBCOT tier-1 block coder part.  Property-level theorems in Props format; the integrator
    merges these into Props/C20.v (add T1.T1Store T1.T1Ctx T1.T1CtxProofs T1.T1Model T1.T1Bytes
    T1.T1ProofsBase T1.T1ProofsSample T1.T1ProofsPass T1.T1ProofsSeq T1.T1ProofsFinal
-   T1.T1ProofsBytes to its Require line).
+   T1.T1ProofsOj T1.T1ProofsBytes to its Require line).
 
    STATUS
    * Context tables = ISO/IEC 15444-1 Annex D (Tables D.1 - D.4): COMPLETE, over every entry of
@@ -25,7 +25,7 @@
      code in jpeg2000/t1.  The round trip is unaffected (the model ignores the bit as the code
      does), but streams from other encoders using VSC would be decoded with the wrong contexts. *)
 From V Require Import Common.Base T1.T1Store T1.T1Ctx T1.T1CtxProofs T1.T1Model T1.T1Bytes
-  T1.T1ProofsBase T1.T1ProofsSample T1.T1ProofsPass T1.T1ProofsSeq T1.T1ProofsFinal T1.T1ProofsBytes.
+  T1.T1ProofsBase T1.T1ProofsSample T1.T1ProofsPass T1.T1ProofsSeq T1.T1ProofsFinal T1.T1ProofsOj T1.T1ProofsBytes.
 Require V.Gen.T1Tables_gen.
 
 (* ---------------------------------------------------------------------------------------
@@ -114,6 +114,20 @@ Theorem C20_t1_lockstep : forall (wn hn : nat) (orient style fb np : Z) (data : 
       end.
 Proof. exact t1_lockstep. Qed.
 Print Assumptions C20_t1_lockstep.
+
+(* Part (a) for either reconstruction mode (oj = SetOpenJPEGReconstruction): the decoder asks for
+   the encoder's (kind, ctx) sequence and ends with the encoder's flags; the mode only changes the
+   reconstructed values (T1ProofsOj.dec_passes_sim: for any channel). *)
+Theorem C20_t1_lockstep_flags_any_reconstruction :
+  forall (wn hn : nat) (orient style fb np : Z) (data : list Z) (oj : bool),
+  length data = (wn * hn)%nat -> data_ok data -> 0 <= fb ->
+  let maxbp := find_max_bitplane data in
+  let syms := snd (enc_syms wn hn orient style fb np data) in
+  exists D',
+    dec_ideal wn hn orient style maxbp oj syms =
+    Ok ((enc_final_flags wn hn orient style maxbp (pad_data wn hn data) (pass_list maxbp fb np) true Leaf, D'), ([], [])).
+Proof. exact t1_lockstep_flags_oj. Qed.
+Print Assumptions C20_t1_lockstep_flags_any_reconstruction.
 
 (* a truncated run: 2x2 block, HH orientation, style LAZY|SEGSYM, 4 of the 10 passes *)
 Example C20_t1_lockstep_instance :
